@@ -76,6 +76,7 @@ func Main(props []Property) {
 		workers = flag.Int("workers", 0, "worker processes (default: cores)")
 		budget  = flag.Int("budget", 0, "exploration budget in seconds (default per tier)")
 		list    = flag.Bool("list", false, "list properties and scenarios")
+		attach  = flag.String("attach", "", "JSON file merged into the evidence coverage (supplementary passes)")
 	)
 	flag.Parse()
 	if *list {
@@ -106,7 +107,7 @@ func Main(props []Property) {
 		runWorker(*prop, *tier, i, n, time.Unix(*dl, 0), *out)
 		return
 	}
-	os.Exit(drive(*prop, *tier, *root, *workers, *budget))
+	os.Exit(drive(*prop, *tier, *root, *workers, *budget, *attach))
 }
 
 func doReplay(props []Property, file string) int {
@@ -148,7 +149,7 @@ func doReplay(props []Property, file string) int {
 	return 2
 }
 
-func drive(prop Property, tier, root string, nw, budget int) int {
+func drive(prop Property, tier, root string, nw, budget int, attach string) int {
 	start := time.Now()
 	if nw == 0 {
 		nw = runtime.NumCPU()
@@ -413,6 +414,17 @@ func drive(prop Property, tier, root string, nw, budget int) int {
 		"wall_s":         round2(time.Since(start).Seconds()),
 		"violations":     int(violCount),
 		"known_findings": knownLines,
+	}
+	if attach != "" {
+		if b, err := os.ReadFile(attach); err == nil {
+			var extra map[string]interface{}
+			if json.Unmarshal(b, &extra) == nil {
+				cov := ev["coverage"].(map[string]interface{})
+				for k, v := range extra {
+					cov[k] = v
+				}
+			}
+		}
 	}
 	_ = os.MkdirAll(filepath.Join(root, "evidence"), 0o755)
 	b, _ := json.MarshalIndent(ev, "", " ")
